@@ -157,4 +157,36 @@ def run(ck):
         ck.ok("R5.chunk-length-consistent", pc.where(), "chunk-size line, data length and sent-bytes accounting all use '%s'" % sizes[0])
     else:
         ck.violation("R5.chunk-length-consistent", "R5|packChunk|lengths", pc.where(), "packChunk uses different lengths: size line %s, data %s, accounting %s" % (sizes, datas, notes))
+    ck.rule("R6 SIBLING framing of body bytes in Http::Stream: sendBody() sends raw bytes only with flags.chunkedReply false (and otherwise packChunk()); the body bytes "
+            "that arrive together with the headers (disk hits) go through sendStartOfMessage(), which must make the same distinction: a raw append of bodyData "
+            "is reached only with flags.chunkedReply established false. Otherwise a reply announced as chunked starts with unframed bytes")
+    hs = ck.facts(["src/http/Stream.cc"], whole=False)
+    chunked = E.m_is_mem("chunkedReply")
+    nraw = 0
+    for fname in ("Http::Stream::sendStartOfMessage", "Http::Stream::sendBody"):
+        f = hs.fn(fname)
+        ck.need(f.params, "C01: %s lost its parameters" % fname)
+        BODY = f.params[-1]["d"]
+        raw = lambda ev, BODY=BODY: ev.get("e") == "call" and E.strip(ev["x"]).get("f", "").split("::")[-1] in ("append", "write") and \
+            any(BODY in E.mentions(a) and any(n.get("k") == "mem" and n.get("m", "").endswith("::data") for n in E.walk(a)) for a in E.strip(ev["x"]).get("a", []))
+        fl6 = ck.flow(f)
+        for st in fl6.find(raw):
+            nraw += 1
+            if st.has(chunked, False):
+                ck.ok("R6.body-framing-agrees", st.where(), "%s: raw body bytes only with flags.chunkedReply false" % fname)
+            else:
+                ck.violation("R6.body-framing-agrees", "R6|%s|raw-body-when-chunked" % fname, st.where(), "%s sends %s.data raw although flags.chunkedReply was not established "
+                             "false on the path: the reply is announced as chunked (and the rest of the body is chunked by sendBody()) but these bytes are unframed" % (fname, BODY), fl6.witness(st))
+    ck.need(nraw >= 2, "C01: expected the raw body writes of sendStartOfMessage() and sendBody(), found %d" % nraw)
+
+    ck.rule("R7 clientReplyContext::sendMoreData: what the client-stream buffer holds is recorded (noteStreamBufferredBytes(result)) on every path before the bytes are pushed "
+            "or the reply is prepared -- also for a zero-length result: processReplyAccessResult() later sends lastStreamBufferedBytes after the headers, and a stale "
+            "record (the body bytes a revalidated disk hit had buffered) is sent in front of the new reply's body")
+    csr = ck.facts(["src/client_side_reply.cc"], whole=False)
+    smd = csr.fn("clientReplyContext::sendMoreData")
+    note = ev_call("clientReplyContext::noteStreamBufferredBytes")
+    uses = lambda ev: ev.get("e") == "call" and E.strip(ev["x"]).get("f", "") in ("clientReplyContext::pushStreamData", "clientReplyContext::processReplyAccess", "clientReplyContext::cloneReply")
+    ck.require_passed("R7.stream-buffer-recorded", ck.flow(smd, markers={"noted": note}), uses, "noted", "pushStreamData()|cloneReply()|processReplyAccess()", min_sites=2,
+                      why="(bytes recorded for an earlier store read would be sent as the start of this reply's body)")
+
     ck.assume("byte equality, segmentation independence and cache interplay are not decided; only the gates that keep a shortened body from being presented as complete")
